@@ -266,6 +266,9 @@ func main() {
 		case "impl":
 			fails++
 			for _, v := range viaList {
+				if vias[v] == 0 && len(viaList) == 1 && len(c.Ideal) <= 6 {
+					vhlib.Sample(rep) // a small failing tree per root cause, for the evidence file
+				}
 				vias[v]++
 				vhlib.Fail("Children."+v+"KeepsSlot",
 					"a component received a child block that was not passed at its call site (or a block was rendered twice / recursively)", rep)
